@@ -43,6 +43,7 @@ type Case struct {
 	P1   int    `json:"p1"`
 	K    int    `json:"k"`
 	Kind string `json:"kind"`
+	Mode string `json:"mode,omitempty"` // "" = context on the main state, run by PCall; "thread" = context on a NewThread state only, run by Resume
 	Src  string `json:"src,omitempty"`
 	Diff string `json:"diff,omitempty"`
 }
@@ -142,16 +143,53 @@ type runResult struct {
 	cancelledAt int
 	emitAfter   int
 	ret         string
+	probeBad    string // first after-cancel probe that completed Lua code
+	probes      int
 }
 
-func runOnce(src string, k int, useCtx bool) *runResult {
+// tiny functions whose first (often only) instruction is observable: a
+// fresh entry into the interpreter after the context is done must not
+// complete any of them
+var probeSrcs = []string{
+	"return function(x) return x end",
+	"return function() end",
+	"return function(...) return ... end",
+	"return function(x) return x, x end",
+	"return function(t) t.hit = true end",
+}
+
+func runOnce(src string, k int, useCtx bool, opt ...string) *runResult {
 	res := &runResult{}
+	mode, probe := "", false
+	for _, o := range opt {
+		switch o {
+		case "thread":
+			mode = o
+		case "probe":
+			probe = true
+		}
+	}
 	L := lua.NewState()
 	defer L.Close()
+	var probes []lua.LValue
+	if probe {
+		for _, ps := range probeSrcs {
+			probes = append(probes, gl.MustLoad(L, ps)) // before the context is attached: no polls consumed
+		}
+	}
 	var ctx *cancelAt
+	run := L // the state that runs the script
 	if useCtx {
 		ctx = newCancelAt(k, false)
-		L.SetContext(ctx)
+		if mode == "thread" {
+			// the context is attached to a thread state only; the parent has none
+			run, _ = L.NewThread()
+			run.SetContext(ctx)
+		} else {
+			L.SetContext(ctx)
+		}
+	} else if mode == "thread" {
+		run, _ = L.NewThread()
 	}
 	L.SetGlobal("emit", L.NewFunction(func(L *lua.LState) int {
 		if ctx != nil && ctx.Context.Err() != nil {
@@ -173,10 +211,22 @@ func runOnce(src string, k int, useCtx bool) *runResult {
 		}
 		return 0
 	}))
+	var thVals []lua.LValue
 	o := gl.Protect(func() error {
 		fn, err := L.LoadString(src)
 		if err != nil {
 			return err
+		}
+		if mode == "thread" {
+			st, rerr, vals := L.Resume(run, fn)
+			if st == lua.ResumeError {
+				if rerr == nil {
+					rerr = fmt.Errorf("ResumeError without an error value")
+				}
+				return rerr
+			}
+			thVals = vals
+			return nil
 		}
 		L.Push(fn)
 		return L.PCall(0, 1, nil)
@@ -188,7 +238,50 @@ func runOnce(src string, k int, useCtx bool) *runResult {
 		res.failed = true
 		res.errText = o.Err.Error()
 	} else if o.GoPanic == nil {
-		res.ret = gl.Canon(L.Get(-1), gl.NewIDMap())
+		if mode == "thread" {
+			res.ret = "nil"
+			if len(thVals) > 0 {
+				res.ret = gl.Canon(thVals[0], gl.NewIDMap())
+			}
+		} else {
+			res.ret = gl.Canon(L.Get(-1), gl.NewIDMap())
+		}
+	}
+	if probe && ctx != nil && ctx.Context.Err() != nil && o.GoPanic == nil && mode != "thread" {
+		// the context is done: no fresh entry into Lua code may complete
+		for i, pf := range probes {
+			arg := lua.LValue(lua.LNumber(7))
+			var tb *lua.LTable
+			if i == len(probes)-1 {
+				tb = L.NewTable()
+				arg = tb
+			}
+			po := gl.Protect(func() error { return L.CallByParam(lua.P{Fn: pf, NRet: lua.MultRet, Protect: true}, arg) })
+			res.probes++
+			switch {
+			case po.GoPanic != nil:
+				res.probeBad = "Go panic in an after-cancel probe: " + po.PanicStr
+			case po.Err == nil:
+				res.probeBad = fmt.Sprintf("after the context was done, a protected call of `%s` completed and returned normally", probeSrcs[i])
+			case !strings.Contains(po.Err.Error(), "context canceled"):
+				res.probeBad = fmt.Sprintf("after the context was done, a protected call of `%s` failed with %q, not with the context's reason", probeSrcs[i], fw.Short(po.Err.Error(), 100))
+			case tb != nil && tb.RawGetString("hit") != lua.LNil:
+				res.probeBad = "after the context was done, a SETTABLE instruction of a freshly called function took effect"
+			}
+			if res.probeBad != "" {
+				break
+			}
+			L.SetTop(0)
+		}
+		if res.probeBad == "" {
+			// a coroutine created from the state after the context was attached (and done)
+			th, _ := L.NewThread()
+			st, _, _ := L.Resume(th, probes[0].(*lua.LFunction), lua.LNumber(7))
+			res.probes++
+			if st != lua.ResumeError {
+				res.probeBad = "after the context was done, Resume of a new thread ran `function(x) return x end` to completion"
+			}
+		}
 	}
 	if ctx != nil {
 		res.polls = int(atomic.LoadInt64(&ctx.n))
@@ -216,6 +309,9 @@ func checkCancelled(ref, got *runResult, depth int) string {
 	if got.emitAfter > 0 {
 		return fmt.Sprintf("%d host calls completed after the context was done", got.emitAfter)
 	}
+	if got.probeBad != "" {
+		return got.probeBad
+	}
 	bound := 4 * (depth + 2)
 	if after := got.polls - got.cancelledAt; after > bound {
 		return fmt.Sprintf("%d further dispatch attempts after the cancel (bound %d for protected-call nesting %d)", after, bound, depth)
@@ -231,16 +327,21 @@ func checkCancelled(ref, got *runResult, depth int) string {
 	return ""
 }
 
-func runProgram(c *fw.Ctx, pi int, p1 int, onlyK int, count bool) {
+func runProgram(c *fw.Ctx, pi int, p1 int, onlyK int, count bool, mode string) {
 	p := programs[pi]
 	src := p.src(p1)
-	base := Case{Prog: pi, P1: p1, Kind: "poll", Src: src}
+	base := Case{Prog: pi, P1: p1, Kind: "poll", Src: src, Mode: mode}
 	K := c.Pick(1200, 6000)
+	kStep, kOff := 1, 0
+	if mode == "thread" {
+		// the same enumeration with the context on a thread state: every 4th poll, offset by the variant
+		kStep, kOff = 4, p1%4
+	}
 	c.Begin(base)
 	var ref *runResult
 	if p.terminates {
-		ref = runOnce(src, 0, true)
-		plain := runOnce(src, 0, false)
+		ref = runOnce(src, 0, true, mode)
+		plain := runOnce(src, 0, false, mode)
 		if strings.Join(plain.trace, ";") != strings.Join(ref.trace, ";") || plain.ret != ref.ret || plain.failed != ref.failed {
 			c.Violation("attaching an undone context changed the script's behaviour", base)
 		}
@@ -248,9 +349,12 @@ func runProgram(c *fw.Ctx, pi int, p1 int, onlyK int, count bool) {
 			K = ref.polls
 		}
 	} else {
-		ref = runOnce(src, K+400, true) // reference: cut well after the enumerated range
+		ref = runOnce(src, K+400, true, mode) // reference: cut well after the enumerated range
 	}
-	c.End(true, fmt.Sprintf("%s/%d/ref", p.name, p1))
+	c.End(true, fmt.Sprintf("%s/%d/ref/%s", p.name, p1, mode))
+	if count && mode != "" {
+		c.Count("programs_with_context_on_thread_only", 1)
+	}
 	if count {
 		c.Count("programs", 1)
 		c.Count("polls_enumerated_"+p.name, int64(K))
@@ -259,10 +363,20 @@ func runProgram(c *fw.Ctx, pi int, p1 int, onlyK int, count bool) {
 		if onlyK > 0 && k != onlyK {
 			continue
 		}
+		if onlyK == 0 && k%kStep != kOff {
+			continue
+		}
 		cs := base
 		cs.K = k
 		c.Begin(cs)
-		got := runOnce(src, k, true)
+		probe := ""
+		if onlyK > 0 || k%8 == p1%8 || k == K {
+			probe = "probe"
+		}
+		got := runOnce(src, k, true, mode, probe)
+		if count && got.probes > 0 {
+			c.Count("after_cancel_probes", int64(got.probes))
+		}
 		v := checkCancelled(ref, got, p.depth)
 		if count {
 			c.Count("cancel_runs", 1)
@@ -280,7 +394,7 @@ func runProgram(c *fw.Ctx, pi int, p1 int, onlyK int, count bool) {
 		if count && c.WantSample() && k == K/2 {
 			c.Sample(map[string]any{"program": p.name, "src": src, "cancel_at_poll": k, "polls_after_cancel": got.polls - got.cancelledAt, "error": fw.Short(got.errText, 80), "events_before_cancel": len(got.trace)})
 		}
-		c.End(got.cancelledAt > 0, fmt.Sprintf("%s/%d/%d", p.name, p1, k))
+		c.End(got.cancelledAt > 0, fmt.Sprintf("%s/%d/%d/%s", p.name, p1, k, mode))
 	}
 }
 
@@ -299,6 +413,10 @@ var blocking = []struct{ name, src string }{
 	{"send-full-buffer", "ready() full:send(2) emit('returned') while true do emit('spin') end"},
 	{"select-receive", "ready() local i, v, ok = channel.select({'|<-', ch}, {'|<-', ch2}) emit('returned', i) while true do emit('spin') end"},
 	{"select-send", "ready() local i = channel.select({'<-|', ch, 1}, {'|<-', ch2}) emit('returned', i) while true do emit('spin') end"},
+	{"receive-tail", "ready() return ch:receive()"},
+	{"send-tail", "ready() return ch:send(1)"},
+	{"select-tail", "ready() return channel.select({'|<-', ch}, {'|<-', ch2})"},
+	{"receive-tail-in-function", "local function f() return ch:receive() end ready() return f()"},
 	{"receive-in-pcall", "ready() pcall(function() ch:receive() end) emit('returned') while true do emit('spin') end"},
 	{"send-in-coroutine", "ready() local co = coroutine.wrap(function() ch:send(1) emit('co-returned') end) co() emit('returned') while true do emit('spin') end"},
 }
@@ -379,7 +497,17 @@ func run(c *fw.Ctx) {
 			if !c.Mine(idx) {
 				continue
 			}
-			runProgram(c, pi, int(c.SubRand("p1", pi*100+v).Int31n(1000)), 0, true)
+			p1 := int(c.SubRand("p1", pi*100+v).Int31n(1000))
+			runProgram(c, pi, p1, 0, true, "")
+			runProgram(c, pi, p1, 0, true, "thread")
+		}
+	}
+	// pools of states sharing one buffered channel and one context
+	rounds := c.Pick(96, 800)
+	for rd := 0; rd < rounds; rd++ {
+		idx++
+		if c.Mine(idx) {
+			runPool(c, rd, true)
 		}
 	}
 	for bi := range blocking {
@@ -402,5 +530,95 @@ func replay(c *fw.Ctx, raw json.RawMessage) {
 		runBlocking(c, cs.Prog, false)
 		return
 	}
-	runProgram(c, cs.Prog, cs.P1, cs.K, false)
+	if cs.Kind == "pool" {
+		for i := 0; i < 50; i++ {
+			runPool(c, cs.Prog, false)
+		}
+		return
+	}
+	runProgram(c, cs.Prog, cs.P1, cs.K, false, cs.Mode)
+}
+
+// ---------- pools: several states, one buffered channel, one context ----------
+
+const poolWorkers = 8
+
+const poolSrc = `
+local n = 0
+while true do
+  local ok, job = jobs:receive()
+  if not ok then break end
+  n = n + job
+end
+return n`
+
+// runPool: poolWorkers states in their own goroutines take values from one
+// 1-slot channel while the harness feeds it; the harness then goes quiet,
+// lets the pool drain, and cancels the common context. Every worker sits in
+// jobs:receive() by then and each must come back with the context's reason.
+// Verdict on logical state, not on time: a worker that has not returned is a
+// violation only if its goroutine is parked in a channel receive that nobody
+// can complete (the harness holds the only other reference and sends nothing).
+func runPool(c *fw.Ctx, round int, count bool) {
+	cs := Case{Prog: round, Kind: "pool", Src: poolSrc}
+	c.Begin(cs)
+	ctx, cancel := context.WithCancel(context.Background())
+	defer cancel()
+	jobs := make(chan lua.LValue, 1)
+	results := make(chan error, poolWorkers)
+	var started int32
+	for w := 0; w < poolWorkers; w++ {
+		go func() {
+			L := lua.NewState()
+			defer L.Close()
+			L.SetContext(ctx)
+			L.SetGlobal("jobs", lua.LChannel(jobs))
+			atomic.AddInt32(&started, 1)
+			results <- L.DoString(poolSrc)
+		}()
+	}
+	// feed a seed-independent number of jobs as fast as the pool takes them
+	sent := 0
+	for sent < 3000 {
+		jobs <- lua.LNumber(1)
+		sent++
+	}
+	// quiet: wait until the buffer is empty and stays empty
+	for i := 0; i < 2000 && len(jobs) > 0; i++ {
+		time.Sleep(time.Millisecond)
+	}
+	time.Sleep(5 * time.Millisecond)
+	cancel()
+	ended, wrong := 0, ""
+	timeout := time.After(20 * time.Second)
+loop:
+	for ended < poolWorkers {
+		select {
+		case err := <-results:
+			ended++
+			if err == nil || !strings.Contains(err.Error(), "context canceled") {
+				wrong = fmt.Sprintf("a pool worker ended with %v instead of the context's reason", err)
+			}
+		case <-timeout:
+			break loop
+		}
+	}
+	if count {
+		c.Count("pool_rounds", 1)
+		c.Count("pool_jobs_sent", int64(sent))
+	}
+	switch {
+	case ended < poolWorkers:
+		buf := make([]byte, 1<<18)
+		st := string(buf[:runtime.Stack(buf, true)])
+		if len(jobs) == 0 && strings.Contains(st, "chan receive") {
+			c.Violation(fmt.Sprintf("%d of %d states sharing a buffered channel stay parked in receive after their context was cancelled (the channel is empty and nobody sends)", poolWorkers-ended, poolWorkers), cs)
+		} else {
+			c.Inconclusive("pool round did not finish within the watchdog")
+		}
+		close(jobs) // release what is stuck
+	case wrong != "":
+		c.Violation(wrong, cs)
+	}
+	c.End(ended == poolWorkers, fmt.Sprintf("pool/%d", round))
 }
